@@ -38,14 +38,16 @@ Inductive label :=
 (* channel/read.go: Channel.Read and its callers ReadUntil... *)
 | L_chread_errs | L_chread_exited | L_chread_dequeue | L_op_ctx_check | L_op_return
 (* driver/netconf *)
-| L_nclose_done_once | L_ncread_check_done | L_ncread_send_errs | L_ncread_sleep
+| L_nclose_done_once | L_nclose_channel_close | L_ncread_check_done | L_ncread_send_errs | L_ncread_sleep
 | L_rpc_go_poller | L_rpc_select | L_rpc_cancel
 | L_poll_ctx_err | L_poll_get_message | L_poll_send_done | L_poll_defer_close_done
 (* original code only *)
 | L_oread_send_errs | L_oread_defer_flag
 | L_oclose_close_errs | L_oclose_read_flag | L_oclose_go_sender | L_oclose_close_ch | L_oclose_select
 | L_osender_send_done | L_osender_defer_close_ch
-| L_ochread_read_flag | L_onclose_send_done | L_oncread_send_errs.
+| L_ochread_read_flag | L_onclose_send_done | L_oncread_send_errs
+(* transport/system.go (the field System.fd) *)
+| L_sys_load_fd | L_sys_fd_nil.
 
 Definition all_labels : list label :=
   [ L_read_check_done; L_read_check_done2; L_read_send_errs; L_read_sleep; L_read_enqueue;
@@ -53,13 +55,14 @@ Definition all_labels : list label :=
     L_close_done_once; L_close_select; L_close_return;
     L_tclose_lock; L_tclose_impl_close; L_tclose_unlock;
     L_chread_errs; L_chread_exited; L_chread_dequeue; L_op_ctx_check; L_op_return;
-    L_nclose_done_once; L_ncread_check_done; L_ncread_send_errs; L_ncread_sleep;
+    L_nclose_done_once; L_nclose_channel_close; L_ncread_check_done; L_ncread_send_errs; L_ncread_sleep;
     L_rpc_go_poller; L_rpc_select; L_rpc_cancel;
     L_poll_ctx_err; L_poll_get_message; L_poll_send_done; L_poll_defer_close_done;
     L_oread_send_errs; L_oread_defer_flag;
     L_oclose_close_errs; L_oclose_read_flag; L_oclose_go_sender; L_oclose_close_ch; L_oclose_select;
     L_osender_send_done; L_osender_defer_close_ch;
-    L_ochread_read_flag; L_onclose_send_done; L_oncread_send_errs ].
+    L_ochread_read_flag; L_onclose_send_done; L_oncread_send_errs;
+    L_sys_load_fd; L_sys_fd_nil ].
 
 Definition label_id (l : label) : nat :=
   match l with
@@ -75,7 +78,8 @@ Definition label_id (l : label) : nat :=
   | L_oclose_close_errs => 33 | L_oclose_read_flag => 34 | L_oclose_go_sender => 35
   | L_oclose_close_ch => 36 | L_oclose_select => 37 | L_osender_send_done => 38
   | L_osender_defer_close_ch => 39 | L_ochread_read_flag => 40 | L_onclose_send_done => 41
-  | L_oncread_send_errs => 42
+  | L_oncread_send_errs => 42 | L_sys_load_fd => 43 | L_sys_fd_nil => 44
+  | L_nclose_channel_close => 45
   end.
 Definition label_eqb (a b : label) : bool := Nat.eqb (label_id a) (label_id b).
 
@@ -159,7 +163,7 @@ Definition reader_code (tc : tcb) : code label :=
 
 (* Channel.Close (CLI) / Driver.Close (NETCONF: close(d.done) once first) *)
 Definition C_RETURN_CLI := 6.
-Definition C_RETURN_NC := 7.
+Definition C_RETURN_NC := 8.
 
 Definition closer_tail (b : nat) : code label :=
   [ (* b+0  c.doneOnce.Do(func() { close(c.done) }) *)
@@ -178,7 +182,9 @@ Definition closer_tail (b : nat) : code label :=
 Definition closer_code (netconf : bool) : code label :=
   if netconf then
     [ (* d.doneOnce.Do(func() { close(d.done) }) *)
-      Lb L_nclose_done_once (IOnceClose V_NDONEONCE CH_NDONE 1) ] ++ closer_tail 1
+      Lb L_nclose_done_once (IOnceClose V_NDONEONCE CH_NDONE 1);
+      (* err := d.Channel.Close(): the call itself (a no-op step) *)
+      Lb L_nclose_channel_close (ISleep 2) ] ++ closer_tail 2
   else closer_tail 0.
 
 Definition closer_return (netconf : bool) : pc := if netconf then C_RETURN_NC else C_RETURN_CLI.
@@ -417,7 +423,8 @@ Definition old_closer_tail (b : nat) (ch : chan) (sender : tid) : code label :=
 Definition old_closer_code (netconf : bool) (ch : chan) (sender : tid) : code label :=
   if netconf then
     [ (* d.done <- true *)
-      Lb L_onclose_send_done (ISend OCH_NDONE 1) ] ++ old_closer_tail 1 ch sender
+      Lb L_onclose_send_done (ISend OCH_NDONE 1);
+      Lb L_nclose_channel_close (ISleep 2) ] ++ old_closer_tail 2 ch sender
   else old_closer_tail 0 ch sender.
 
 Definition old_sender_code (ch : chan) : code label :=
@@ -469,6 +476,55 @@ Definition old_sys_of (sc : scenario) : sys label :=
        [ lock0 st; old_flag0 st; 0; 0; net0 st; 0; 0 ]
        0).
 
-Definition old_closer_return (netconf : bool) : pc := if netconf then 10 else 9.
+Definition old_closer_return (netconf : bool) : pc := if netconf then 11 else 9.
 Definition old_closers_returned (sc : scenario) (s : state) : bool :=
   exited_at (old_sys_of sc) s T_CLOSER1 && exited_at (old_sys_of sc) s T_CLOSER2.
+
+(* ---------- the System transport's `fd` field (transport/system.go), fixed code ----------
+
+   Impl.Read / Impl.Close are atomic in [sys_of]: the transport implementation is taken to be
+   thread-safe.  For the default System transport that is not quite so: System.Read evaluates the
+   plain field `t.fd` (`t.fd.Read(b)`) and System.Close assigns it (`t.fd = nil`), and
+   Transport.Close(true) — the forced path — calls System.Close WITHOUT implLock while the reader
+   may be in, or about to enter, System.Read.  [system_sys] is [sys_of] for CLI with these two plain
+   accesses made explicit: the load of the field before the blocking read, the store after the
+   descriptor has been closed. *)
+Definition V_FD : var := 7.
+Definition R_LOAD_FD := 14.
+Definition system_reader_code (tc : tcb) : code label :=
+  [ Lb L_read_check_done (ISelect [(Rcv CH_DONE, R_DEFER)] (SDefault R_LOCK));
+    Lb L_tread_lock (ILock V_IMPLLOCK R_LOAD_FD);
+    Lb L_tread_impl_read (IAtomic (impl_read_alts tc));
+    Lb L_tread_unlock (IUnlock V_IMPLLOCK R_ENQ);
+    Lb L_tread_unlock (IUnlock V_IMPLLOCK R_SLEEP);
+    Lb L_tread_unlock (IUnlock V_IMPLLOCK R_CHECK2_EOF);
+    Lb L_tread_unlock (IUnlock V_IMPLLOCK R_CHECK2_ERR);
+    Lb L_read_enqueue (ISleep R_SLEEP);
+    Lb L_read_check_done2 (ISelect [(Rcv CH_DONE, R_DEFER)] (SDefault R_DEFER));
+    Lb L_read_check_done2 (ISelect [(Rcv CH_DONE, R_DEFER)] (SDefault R_SEND));
+    Lb L_read_send_errs (ISelect [(Snd CH_ERRS, R_SLEEP); (Rcv CH_DONE, R_DEFER)] SBlock);
+    Lb L_read_sleep (ISleep R_CHECK);
+    Lb L_read_defer_exited (IOnceClose V_EXITEDONCE CH_EXITED R_EXIT);
+    Sil IExit;
+    (* 14  System.Read: the field t.fd is loaded (then the read on it blocks) *)
+    Lb L_sys_load_fd (IPlainRead V_FD [R_IMPL; R_IMPL]) ].
+
+Definition system_closer_code : code label :=
+  [ Lb L_close_done_once (IOnceClose V_DONEONCE CH_DONE 1);
+    Lb L_close_select (ISelect [(Rcv CH_EXITED, 2)] (STimer 5));
+    Lb L_tclose_lock (ILock V_IMPLLOCK 3);
+    Lb L_tclose_impl_close (IAtomicWrite V_TCLOSED 1 7);      (* t.fd.Close(), graceful *)
+    Lb L_tclose_unlock (IUnlock V_IMPLLOCK 6);
+    Lb L_tclose_impl_close (IAtomicWrite V_TCLOSED 1 8);      (* t.fd.Close(), forced *)
+    Lb L_close_return IExit;
+    (* 7, 8  System.Close: t.fd = nil *)
+    Lb L_sys_fd_nil (IPlainWrite V_FD 1 4);
+    Lb L_sys_fd_nil (IPlainWrite V_FD 1 6) ].
+
+Definition system_sys (tc : tcb) (second : bool) : sys label :=
+  mkSys
+    [ system_reader_code tc; system_closer_code;
+      (if second then system_closer_code else absent);
+      absent; env_code [NET_DATA]; absent; absent ]
+    (mkState [ R_CHECK; 0; 0; 0; 0; 0; 0 ] [ 0; 0; 0; 0; 0; 0; 0 ] [ 0; 0; 0; 0; 0; 0 ]
+             [ 0; 0; 0; 0; NET_QUIET; 0; 0; 0 ] 0).
